@@ -132,6 +132,7 @@ pub fn std_sweep(tier: Tier, flavor: Flavor) -> Vec<Part> {
     parts.push(Part { name: "ES-R mixed inputs whose single Base256 field fills a capacity", family: gen::es_r(), cfgs: gen::cfgs(&[ALL_MODES, 0x21], &[d, a], &on, &off) });
     parts.push(Part { name: "ES-T long run across 255/256 and 511/512 + short tail of another class", family: gen::es_t(), cfgs: gen::cfgs(&[ALL_MODES, NO_ASCII], &[d], &on, &off) });
     parts.push(Part { name: "ES-U every byte value + EDIFACT run of 4m + short foreign tail", family: gen::es_u(), cfgs: gen::cfgs(&[ALL_MODES], &[d, a], &on, &off) });
+    parts.push(Part { name: "ES-V run of one class + whole EDIFACT groups + short foreign tail", family: gen::es_v(), cfgs: gen::cfgs(&[ALL_MODES], &[d, a], &on, &off) });
     parts.push(Part { name: "ES-J2 long runs + EDIFACT middle + suffix", family: gen::es_j2(), cfgs: gen::cfgs(&[ALL_MODES, 0x31], &[d], &on, &off) });
     parts.push(Part {
         name: "ES-F2 macro token sequences",
